@@ -24,10 +24,12 @@ def _corpus_args(ctx, name):
     return ([fn] if os.path.exists(fn) else []), None
 
 
-def _stream(ctx, cmd, n, corpus_name, timeout):
+def _stream(ctx, cmd, n, corpus_name, timeout, extra=()):
     args, force_n = _corpus_args(ctx, corpus_name)
     if force_n is not None:
         n = force_n
+    else:
+        args = list(args) + list(extra)
     out, err = fw.run_stream(ctx['root'], ctx['workdir'], cmd, ctx['seed'], n, args)
     if out is None:
         raise RuntimeError(err)
@@ -331,7 +333,8 @@ RECT_MULTI_KEY = 'rectclip-multiply-wound'
 
 def run_c06(ctx):
     n = _tier(ctx, 4000, 80000)
-    results, meta, summary = _stream(ctx, 'c06', n, 'none', _tier(ctx, 600, 5400))
+    results, meta, summary = _stream(ctx, 'c06', n, 'c06.jsonl', _tier(ctx, 600, 5400),
+                                     extra=['lattice3'] if ctx['tier'] == 'quick' else ['lattice3', 'lattice4'])
     _merge_dist(ctx, summary)
     ent = lambda m: {'in': m['in'], 'rect': m['rect']}
     viol = []
@@ -1382,7 +1385,7 @@ PROPS = {
     },
     'C06': {
         'run': run_c06, 'level': 'proof', 'trust': [t.replace('the Vatti sweep itself (clipper_base.go, engine.go)', 'the rectangle clipper state machine (rect_clip.go)') for t in REGION_TRUST] + ['vertex-in-rectangle, inside-unchanged, outside-vanishes and the driver (joint result = concatenation of per-path results) are decided directly by the harness on every case'],
-        'rule': 'random closed path sets (8 polygon kinds, 9 grids) x rectangles whose sides often pass through path vertices, empty and swallowing rectangles; distinct = distinct (rect, paths); non-trivial = non-empty output',
+        'rule': 'corpus/c06.jsonl first; ALL 25^3 ordered triangles (thorough: also all 25^4 quadrilaterals) on the 5x5 lattice {outside, low side, middle, high side, outside} of a rectangle, whose diagonals pass through the corners; random lattice and boundary families (vertices on corners/sides, edges exactly through corners); random closed path sets (8 polygon kinds, 9 grids) x rectangles whose sides often pass through path vertices, empty and swallowing rectangles; distinct = distinct (rect, paths); non-trivial = non-empty output',
         'assumes': [],
     },
     'C15': {
